@@ -348,10 +348,12 @@ def run_swv_concrete(spec, tier, mg):
 # ------------------------------------------------------------------ (b) acceptance of conv_nd / max_pool
 def accept_cases(tier):
     out = [{"kind": "accept", "name": "accept/conv/1d", "layer": "conv", "nd": 1},
-           {"kind": "accept", "name": "accept/pool/1d", "layer": "pool", "nd": 1}]
+           {"kind": "accept", "name": "accept/pool/1d", "layer": "pool", "nd": 1},
+           # two windowed axes: a configuration is valid only if EVERY axis fits and tiles
+           {"kind": "accept", "name": "accept/conv/2d", "layer": "conv", "nd": 2},
+           {"kind": "accept", "name": "accept/pool/2d", "layer": "pool", "nd": 2}]
     if tier == "thorough":
-        out += [{"kind": "accept", "name": "accept/conv/2d", "layer": "conv", "nd": 2},
-                {"kind": "accept", "name": "accept/pool/2d", "layer": "pool", "nd": 2}]
+        out += [{"kind": "accept", "name": "accept/pool/3d", "layer": "pool", "nd": 3}]
     return out
 
 
@@ -425,7 +427,7 @@ def run_accept(spec, tier):
                     op(X, Wt, stride=tuple(S), padding=tuple(P), dilation=tuple(D))
                 except Accepted as a:
                     return ("accepted", a.args[0], x, W, S, P, D)
-                except (ValueError, AssertionError, TypeError) as e:
+                except (ValueError, AssertionError) as e:
                     return ("rejected", type(e).__name__, x, W, S, P, D)
             else:
                 P = [0] * nd
@@ -436,11 +438,11 @@ def run_accept(spec, tier):
                     op(X, tuple(W), tuple(S))
                 except Accepted as a:
                     return ("accepted", a.args[0], x, W, S, P, D)
-                except (ValueError, AssertionError, TypeError) as e:
+                except (ValueError, AssertionError) as e:
                     return ("rejected", type(e).__name__, x, W, S, P, D)
             return ("fellthrough", None, x, W, S, P, D)
 
-        for p in engine.explore(body, max_paths=2000, max_seconds=300, catch=(AttributeError, IndexError)):
+        for p in engine.explore(body, max_paths=4000, max_seconds=300, catch=(AttributeError, IndexError, TypeError)):
             res["paths"] += 1
             if p.exc is not None:
                 res["status"] = common.INCONCLUSIVE
@@ -564,7 +566,10 @@ def value_cases(tier):
     for i in range(0, len(confs), 40):
         cs.append({"kind": "conv1d", "name": "val/conv1d/%d" % i, "confs": confs[i:i + 40]})
     c2 = [((3, 3), (2, 2), (1, 1), (0, 0), (1, 1)), ((4, 3), (2, 2), (2, 1), (0, 0), (1, 1)), ((2, 2), (2, 2), (1, 1), (1, 0), (1, 1)),
-          ((3, 4), (1, 2), (1, 2), (0, 0), (1, 1)), ((3, 3), (2, 1), (1, 1), (0, 1), (1, 2)), ((3, 3), (2, 2), (2, 2), (0, 0), (1, 1))]
+          ((3, 4), (1, 2), (1, 2), (0, 0), (1, 1)), ((3, 3), (2, 1), (1, 1), (0, 1), (1, 2)), ((3, 3), (2, 2), (2, 2), (0, 0), (1, 1)),
+          # invalid: one axis tiles, the other does not (must raise)
+          ((4, 3), (2, 2), (2, 2), (0, 0), (1, 1)), ((3, 4), (2, 2), (2, 2), (0, 0), (1, 1)), ((4, 4), (2, 2), (1, 3), (0, 0), (1, 1)),
+          ((2, 4), (2, 2), (1, 1), (0, 0), (1, 4))]
     if T:
         c2 += [((4, 4), (2, 2), (2, 2), (0, 0), (1, 1)), ((3, 5), (2, 2), (1, 1), (0, 0), (1, 2)), ((4, 4), (3, 3), (1, 1), (1, 1), (1, 1)),
                ((5, 3), (2, 2), (1, 1), (0, 0), (2, 1))]
@@ -578,7 +583,8 @@ def value_cases(tier):
     for i in range(0, len(pools), 15):
         cs.append({"kind": "pool1d", "name": "val/pool1d/%d" % i, "confs": pools[i:i + 15]})
     cs.append({"kind": "pool2d", "name": "val/pool2d", "confs": [((2, 2), (2, 2), (1, 1)), ((2, 3), (1, 2), (1, 1)), ((3, 2), (2, 1), (1, 1)),
-                                                                  ((2, 4), (2, 2), (2, 2))]})
+                                                                  ((2, 4), (2, 2), (2, 2)), ((3, 4), (2, 2), (2, 2)), ((4, 3), (2, 2), (2, 2)),
+                                                                  ((2, 5), (2, 2), (1, 2)), ((3, 3), (3, 1), (1, 3))]})
     for name in ("batchnorm", "batchnorm-affine", "softmax", "logsoftmax", "softmax_crossentropy", "negative_log_likelihood",
                  "multiclass_hinge", "margin_ranking_loss", "focal_loss", "softmax_focal_loss", "gru"):
         cs.append({"kind": "formula", "name": "val/%s" % name, "which": name})
